@@ -627,6 +627,40 @@ pub fn c03_case(fam: &str, idx: usize, seed: u64) -> Option<Case> {
             let desc = format!("{} size={} cancel at e{} ({:?}) then blackout [{}]", k.describe(), size, who, sc.scripts[0].trig, rules_desc(&sc.rules));
             Some(Case::from(sc, &k, desc, false))
         }
+        "prompt" => {
+            // the sending user prompts (NAK / keep-alive) at arbitrary points, including while the receiver is
+            // already waiting for the ACK of its Finished PDU (which the link keeps losing)
+            let mut rng = Rng::derive(seed, 304, idx as u64);
+            let mut k = rand_knobs(&mut rng, true);
+            let t = C03_TIMERS[rng.usize(C03_TIMERS.len())];
+            k.ti = t.0;
+            k.ta = t.1;
+            k.tn = t.2;
+            k.limit = t.3;
+            k.seg = 32;
+            let size = *rng.pick(&[0usize, 40, 100, 200]);
+            let cl = rng.below(5);
+            let c = content(&mut rng, size, cl, 32, 1);
+            let mut sc = two_party(&case, rng.next_u64(), &k, c);
+            let n0 = first_pass_len(size, 32) + 2;
+            match rng.below(3) {
+                0 => sc.rules.push(Rule { from: 1, to: 0, m: Matcher::KindAll(Kind::Finished), a: Action::Drop }),
+                1 => sc.rules.push(Rule { from: 1, to: 0, m: Matcher::KindFrom(Kind::Finished, 0), a: Action::Delay(1000 * (1 + rng.below(8))) }),
+                _ => sc.rules.push(Rule { from: 0, to: 1, m: Matcher::Nth(rng.usize(n0)), a: Action::Drop }),
+            }
+            for _ in 0..(1 + rng.usize(3)) {
+                let what = if rng.bool() { PrimKind::PromptNak } else { PrimKind::PromptKeepAlive };
+                let trig = match rng.below(3) {
+                    0 => Trigger::AfterEmit(0, rng.usize(n0)),
+                    1 => Trigger::AfterInd(1, IndKind::Finished, 0),
+                    _ => Trigger::AfterArrive(0, rng.usize(3)),
+                };
+                sc.scripts.push(Script { trig, delay_ms: rng.below(1500), act: Act::Prim(0, what, 0) });
+            }
+            sc.probe = true;
+            let desc = format!("{} size={} prompts {:?} faults=[{}]", k.describe(), size, sc.scripts.iter().map(|s| format!("{:?}+{}ms", s.trig, s.delay_ms)).collect::<Vec<_>>(), rules_desc(&sc.rules));
+            Some(Case::from(sc, &k, desc, false))
+        }
         "rand" => {
             // arbitrary (unbounded) faults: heavy random loss in both directions
             let mut rng = Rng::derive(seed, 303, idx as u64);
@@ -730,7 +764,7 @@ pub fn run_c03(tier: &str, seed: u64, replay: Option<&str>) -> (Meta, Report) {
     let meta = Meta {
         property: "C03",
         level: "fault_enumeration",
-        rule: "blackout = link cut (e0->e1, e1->e0, or both) starting at EVERY emission index of the exchange x {ack, unack, unack+closure} x 4 NAK procedures x timer grid {(Ti,Ta,Tn,L)} x sizes {0, 40, 100} (complete); cancel = user cancel at either entity at a random index followed by a cut; rand = up to 12 random faults plus optional loss of every PDU of one kind; plus the C02 single-fault placements. Every run ends with a probe transfer and Report over a healed link. distinct_nontrivial = distinct (config, size, event-order) signatures among runs where a fault fired and at least one task was judged.".into(),
+        rule: "blackout = link cut (e0->e1, e1->e0, or both) starting at EVERY emission index of the exchange x {ack, unack, unack+closure} x 4 NAK procedures x timer grid {(Ti,Ta,Tn,L)} x sizes {0, 40, 100} (complete); cancel = user cancel at either entity at a random index followed by a cut; rand = up to 12 random faults plus optional loss of every PDU of one kind; prompt = Prompt(NAK/keep-alive) requests of the sending user at random points, also while the receiver waits for the ACK of a Finished PDU that the link loses or delays; plus the C02 single-fault placements. Every run ends with a probe transfer and Report over a healed link. distinct_nontrivial = distinct (config, size, event-order) signatures among runs where a fault fired and at least one task was judged.".into(),
         exhaustive: false,
         assumptions: vec!["timeouts >= 1 s".into(), "bound B = 2L(Ti+Ta+Tn)+d+4D+10 s after the last PDU/primitive delivered to the task; observation window 3B".into(), "task end is observed through the cfg-guarded TaskGuard drop hook (H3), spin through its tick counter".into()],
         require: vec![("c03_tasks_ended_in_bound".into(), 1000), ("c03_probes".into(), 500)],
@@ -751,6 +785,8 @@ pub fn run_c03(tier: &str, seed: u64, replay: Option<&str>) -> (Meta, Report) {
     rep.add("cases:cancel", nc as u64);
     rep.merge(run_cases(nr, "c03-rand", move |i| c03_case("rand", i, seed), judge_c03));
     rep.add("cases:rand", nr as u64);
+    rep.merge(run_cases(nr / 2, "c03-prompt", move |i| c03_case("prompt", i, seed), judge_c03));
+    rep.add("cases:prompt", (nr / 2) as u64);
     let n1 = c02_sys1_space().len();
     let st2 = if thorough { 1 } else { 5 };
     let m2 = n1 / st2;
